@@ -2,6 +2,38 @@ module verif
 
 go 1.23
 
-require github.com/go-openapi/runtime v0.0.0
+require (
+	github.com/go-openapi/runtime v0.0.0
+	github.com/docker/go-units v0.5.0
+	github.com/go-openapi/analysis v0.23.0
+	github.com/go-openapi/errors v0.22.1
+	github.com/go-openapi/loads v0.22.0
+	github.com/go-openapi/spec v0.21.0
+	github.com/go-openapi/strfmt v0.23.0
+	github.com/go-openapi/swag v0.23.1
+	github.com/go-openapi/validate v0.24.0
+	github.com/opentracing/opentracing-go v1.2.0
+	github.com/stretchr/testify v1.10.0
+	go.opentelemetry.io/otel v1.24.0
+	go.opentelemetry.io/otel/sdk v1.24.0
+	go.opentelemetry.io/otel/trace v1.24.0
+	golang.org/x/sync v0.11.0
+	gopkg.in/yaml.v3 v3.0.1
+	github.com/asaskevich/govalidator v0.0.0-20230301143203-a9d515a09cc2
+	github.com/davecgh/go-spew v1.1.1
+	github.com/go-logr/logr v1.4.1
+	github.com/go-logr/stdr v1.2.2
+	github.com/go-openapi/jsonpointer v0.21.0
+	github.com/go-openapi/jsonreference v0.21.0
+	github.com/google/uuid v1.6.0
+	github.com/josharian/intern v1.0.0
+	github.com/mailru/easyjson v0.9.0
+	github.com/mitchellh/mapstructure v1.5.0
+	github.com/oklog/ulid v1.3.1
+	github.com/pmezard/go-difflib v1.0.0
+	go.mongodb.org/mongo-driver v1.14.0
+	go.opentelemetry.io/otel/metric v1.24.0
+	golang.org/x/sys v0.17.0
+)
 
 replace github.com/go-openapi/runtime => /repo
